@@ -215,6 +215,15 @@ class ExecBase:
 
     def narrow(self, st, v, want: Sort):
         "a union value used where a specific type is expected: unwrap when the path condition fixes the tag"
+        if isinstance(v, VRec) and v.sort.nm == "PyVal":
+            k = v.sort.get(v.t, "kind")
+            if isinstance(want, TStrS) and not self.feasible(st, k != 1):
+                return VStr(v.sort.get(v.t, "s"))
+            if isinstance(want, TIntS) and not self.feasible(st, z3.And(k != 2, k != 3)):
+                return VInt(z3.If(k == 2, v.sort.get(v.t, "i"), z3.If(v.sort.get(v.t, "b"), 1, 0)))
+            if isinstance(want, TBoolS) and not self.feasible(st, k != 3):
+                return VBool(v.sort.get(v.t, "b"))
+            return v
         if not isinstance(v, VUnion) or isinstance(want, TUnionS):
             return v
         tg = PyU.tag(v.t)
